@@ -3,6 +3,7 @@ import I18n.Lemmas.PyBraceOwn
 import I18n.Lemmas.PyBraceFormat
 import I18n.Lemmas.PyBraceQuirk
 import I18n.Lemmas.PyBraceSpecRe
+import I18n.Lemmas.PyBraceFieldRe
 import I18n.Lemmas.PyBraceTables
 /-!
 # C13 — the brace-format parsers agree with the languages they model
@@ -123,6 +124,20 @@ theorem brace_reject {s : List Char} (h : ¬ parseOK s) : ∃ c a, PyBrace.parse
   | error e =>
     obtain ⟨c, a, rfl⟩ := brace_error_own hp
     exact ⟨c, a, rfl⟩
+
+/-- the python-brace scanner IS the first match of the live parse tree of `pybrace._field_re` under the backtracking
+    semantics of the regex engine, for every string and start position: a maximal run of literal text (`[^{}]`, `{{`, `}}`;
+    group `literal`), else a replacement field `{ name? conversion? format? }` with the spans of the groups `name`,
+    `conversion`, `format` (`fieldCaps`), else no match.  Likewise `_simple_field_re` (a nested field) is `scanSimple`.
+    A change of either pattern changes the generated term and breaks the proof in the kernel. -/
+theorem field_regex (cs : List Char) (pos : Nat) :
+    matchAt liveDB PyBraceTables.fieldRe cs pos =
+      (match PyBrace.scanLiteral cs.length cs with
+       | (t :: ts, rest) => some ⟨rest, pos + (t :: ts).length, [(1, pos, pos + (t :: ts).length)]⟩
+       | ([], _) => (PyBrace.scanField cs).map (fun p => ⟨p.2, pos + p.1.text.length, PyBrace.fieldCaps pos p.1⟩)) ∧
+    matchAt liveDB PyBraceTables.simpleFieldRe cs pos =
+      (PyBrace.scanSimple cs).map (fun p => ⟨p.2, pos + p.1.length + 2, []⟩) :=
+  ⟨PyBrace.matchAt_fieldRe cs pos, PyBrace.matchAt_simpleFieldRe cs pos⟩
 
 /-- the model's reading of a format specification IS the first match of the live parse tree of `_format_spec_re` under the
     backtracking semantics: `T2` is the chain of the stage functions of `scanSpec` (fill/align, sign, `#`, `0`, width, `,`,
